@@ -30,46 +30,16 @@ def eqN : Nat → Heap → Option Id → Option Id → Heap × Outcome Bool
     | some a, some b =>
       if h.typeOf a != h.typeOf b then (h, .ok false)
       else match h.typeOf a with
-        | .bool => match h.getBool (some a) with
-          | (h1, .ok x) => match h1.getBool (some b) with
-            | (h2, .ok y) => (h2, .ok (x == y))
-            | (h2, .err e) => (h2, .err e)
-            | (h2, .panic s) => (h2, .panic s)
-          | (h1, .err e) => (h1, .err e)
-          | (h1, .panic s) => (h1, .panic s)
-        | .numeric => match h.getNumeric (some a) with
-          | (h1, .ok x) => match h1.getNumeric (some b) with
-            | (h2, .ok y) => (h2, .ok (F64.eq x y))
-            | (h2, .err e) => (h2, .err e)
-            | (h2, .panic s) => (h2, .panic s)
-          | (h1, .err e) => (h1, .err e)
-          | (h1, .panic s) => (h1, .panic s)
-        | .string => match h.getString (some a) with
-          | (h1, .ok x) => match h1.getString (some b) with
-            | (h2, .ok y) => (h2, .ok (x == y))
-            | (h2, .err e) => (h2, .err e)
-            | (h2, .panic s) => (h2, .panic s)
-          | (h1, .err e) => (h1, .err e)
-          | (h1, .panic s) => (h1, .panic s)
+        | .bool => liftErr (h.getBool (some a)) fun h1 x => liftErr (h1.getBool (some b)) fun h2 y => (h2, .ok (x == y))
+        | .numeric => liftErr (h.getNumeric (some a)) fun h1 x => liftErr (h1.getNumeric (some b)) fun h2 y => (h2, .ok (F64.eq x y))
+        | .string => liftErr (h.getString (some a)) fun h1 x => liftErr (h1.getString (some b)) fun h2 y => (h2, .ok (x == y))
         | .null => (h, .ok true)
-        | .array => match h.getArray (some a) with
-          | (h1, .ok xs) => match h1.getArray (some b) with
-            | (h2, .ok ys) =>
-              if xs.length != ys.length then (h2, .ok false)
-              else eqList (fun h x y => eqN fuel h (some x) (some y)) h2 xs ys
-            | (h2, .err e) => (h2, .err e)
-            | (h2, .panic s) => (h2, .panic s)
-          | (h1, .err e) => (h1, .err e)
-          | (h1, .panic s) => (h1, .panic s)
-        | .object => match h.getObject (some a) with
-          | (h1, .ok xs) => match h1.getObject (some b) with
-            | (h2, .ok ys) =>
-              if xs.length != ys.length then (h2, .ok false)
-              else eqMembers (fun h x y => eqN fuel h (some x) (some y)) ys h2 (sortByKey xs)
-            | (h2, .err e) => (h2, .err e)
-            | (h2, .panic s) => (h2, .panic s)
-          | (h1, .err e) => (h1, .err e)
-          | (h1, .panic s) => (h1, .panic s)
+        | .array => liftErr (h.getArray (some a)) fun h1 xs => liftErr (h1.getArray (some b)) fun h2 ys =>
+            if xs.length != ys.length then (h2, .ok false)
+            else eqList (fun h x y => eqN fuel h (some x) (some y)) h2 xs ys
+        | .object => liftErr (h.getObject (some a)) fun h1 xs => liftErr (h1.getObject (some b)) fun h2 ys =>
+            if xs.length != ys.length then (h2, .ok false)
+            else eqMembers (fun h x y => eqN fuel h (some x) (some y)) ys h2 (sortByKey xs)
     | _, _ => (h, .err (errT .unparsed))
 
 def eq (h : Heap) (a b : Option Id) : Heap × Outcome Bool := eqN (h.size + 1) h a b
@@ -87,22 +57,11 @@ def cmp (o : Ord4) (h : Heap) (a b : Option Id) : Heap × Outcome Bool :=
   | some a, some b =>
     if h.typeOf a != h.typeOf b then (h, .ok false)
     else match h.typeOf a with
-      | .numeric => match h.getNumeric (some a) with
-        | (h1, .ok x) => match h1.getNumeric (some b) with
-          | (h2, .ok y) => (h2, .ok (match o with
-              | .le => F64.lt x y | .leq => F64.le x y | .ge => F64.lt y x | .geq => F64.le y x))
-          | (h2, .err e) => (h2, .err e)
-          | (h2, .panic s) => (h2, .panic s)
-        | (h1, .err e) => (h1, .err e)
-        | (h1, .panic s) => (h1, .panic s)
-      | .string => match h.getString (some a) with
-        | (h1, .ok x) => match h1.getString (some b) with
-          | (h2, .ok y) => (h2, .ok (match o with
-              | .le => bytesLt x y | .leq => bytesLt x y || x == y | .ge => bytesLt y x | .geq => bytesLt y x || x == y))
-          | (h2, .err e) => (h2, .err e)
-          | (h2, .panic s) => (h2, .panic s)
-        | (h1, .err e) => (h1, .err e)
-        | (h1, .panic s) => (h1, .panic s)
+      | .numeric => liftErr (h.getNumeric (some a)) fun h1 x => liftErr (h1.getNumeric (some b)) fun h2 y =>
+          (h2, .ok (match o with | .le => F64.lt x y | .leq => F64.le x y | .ge => F64.lt y x | .geq => F64.le y x))
+      | .string => liftErr (h.getString (some a)) fun h1 x => liftErr (h1.getString (some b)) fun h2 y =>
+          (h2, .ok (match o with
+            | .le => bytesLt x y | .leq => bytesLt x y || x == y | .ge => bytesLt y x | .geq => bytesLt y x || x == y))
       | _ => (h, .err (errT .wrongType))
   | _, _ => (h, .err (errT .unparsed))
 
